@@ -40,3 +40,45 @@ contract("file_data_to_unicode", source=M + "file_data_to_unicode", params={"dat
                   "implies(not ('\\r' in repl(old_text(data, encoding), '\\r\\n', '\\n')) and '\\r\\n' in old_text(data, encoding), result[1] == '\\r\\n')",
                   "implies(not ('\\r' in repl(old_text(data, encoding), '\\r\\n', '\\n')) and not ('\\r\\n' in old_text(data, encoding)), result[1] == '\\n')"],
          note="the returned text uses LF only; a text without CR is returned unchanged with convention LF")
+
+# ---- CPython cross-check: the codec / newline contracts with the real codecs, str.replace and cookie detection standing for the spec functions ----
+def _xc_dec_domain(tier, seed):
+    heads = [b"", b"# coding: latin-1\n", b"# -*- coding: utf-8 -*-\n", b"# coding: nonexistent\n", b"x = 1\n# coding: latin-1\n"]
+    bodies = [b"a", b"a\r\nb", b"a\rb", b"a\nb\r", b"\xe9", b"\xc3\xa9\r\n", b"\xff\xfe", b"a\r\n\rb", b""]
+    for h in heads:
+        for b in bodies:
+            for enc in (None, "utf-8", "latin-1", "ascii", "nonexistent"):
+                yield (h + b, enc)
+
+
+def _xc_known(e):
+    import codecs
+    try:
+        codecs.lookup(e)
+        return True
+    except LookupError:
+        return False
+
+
+def _xc_decodable(b, e):
+    try:
+        b.decode(e)
+        return True
+    except (UnicodeDecodeError, LookupError):
+        return False
+
+
+def _xc_dec(b, e):
+    return b.decode(e)
+
+
+def _xc_cookie(b):
+    from rope.base import fscommands
+    return fscommands.read_str_coding(b)
+
+
+_XC_ENV = {"dec": _xc_dec, "decodable": _xc_decodable, "known_codec": _xc_known, "repl": lambda s, a, b: s.replace(a, b), "cookie_bytes": _xc_cookie}
+bounded_check(name="c16-decode-native", props=["C16"], contract="_decode_data", build=lambda c: {"data": c[0], "encoding": c[1]}, domain=_xc_dec_domain, exhaustive=True,
+              env=_XC_ENV, label="CPython cross-check: _decode_data's contract with the real codecs (5 headers x 9 bodies x 5 encodings)")
+bounded_check(name="c16-newlines-native", props=["C16"], contract="file_data_to_unicode", build=lambda c: {"data": c[0], "encoding": c[1]}, domain=_xc_dec_domain,
+              exhaustive=True, env=_XC_ENV, label="CPython cross-check: file_data_to_unicode's normalisation / detected-convention clauses on the same domain")
